@@ -1,5 +1,6 @@
 import Stbem.Model.SingleLayer
 import Stbem.Gen.Panels
+import Stbem.Gen.SLRest
 import Driver.QuadCmd
 import Driver.FormulaCmd
 /- Line protocol for the single-layer model (`sl …`); context lines set the configuration. -/
@@ -37,6 +38,21 @@ def showPanel (p : Panel) : String :=
 def showExcept (r : Except String Rat) : String :=
   match r with
   | .ok v => showRat v
+  | .error e => "err " ++ e
+
+/-- `c0,c1,c2,c3` ↦ the function `(t, x) ↦ c0 + c1·t + c2·x₀ + c3·x₀·x₁`; `none` ↦ `None` -/
+def parseDataFn? (s : String) : Option (Option (Rat → Rat × Rat → Rat)) :=
+  if s = "none" then some none
+  else match parseRatList? s with
+    | some [c0, c1, c2, c3] => some (some fun t x => c0 + c1 * t + c2 * x.1 + c3 * x.1 * x.2)
+    | _ => none
+
+def parseOptRatVec? (s : String) : Option (Option (List Rat)) :=
+  if s = "none" then some none else (parseRatList? s).map some
+
+def showExceptList (r : Except String (List Rat)) : String :=
+  match r with
+  | .ok v => showRatList v
   | .error e => "err " ++ e
 
 def slCmd (st : SLState) (args : List String) : SLState × String :=
@@ -92,6 +108,40 @@ def slCmd (st : SLState) (args : List String) : SLState × String :=
   | ["sl", "geneval", e, t, xh, x, y] => match st.fns, parseElem? e, [t, xh, x, y].mapM parseRat? with
     | some S, some e, some [t, xh, x, y] =>
       (st, showRat (Stbem.Gen.Panels.evaluate st.cfg.len st.cfg.glue S st.log st.pieces e t xh (x, y)))
+    | _, _, _ => bad
+  -- the rest of src/single_layer.py, ErrorEstimator.residual and the assembly slice of example.py (Stbem.Gen.SLRest)
+  | ["sl", "genevalx", e, t, x] => match st.fns, parseElem? e, parseRat? t, parseRat? x with
+    | some S, some e, some t, some x => (st, match Stbem.Gen.SLRest.evaluate_exact S e t x with
+        | some v => showRat v | none => "none")
+    | _, _, _, _ => bad
+  | ["sl", "genpot", e, t, x, y] => match st.fns, parseElem? e, [t, x, y].mapM parseRat? with
+    | some S, some e, some [t, x, y] => (st, showRat (Stbem.Gen.SLRest.potential S st.gauss st.pieces e t (x, y)))
+    | _, _, _ => bad
+  | "sl" :: "genevalvec" :: t :: xh :: x :: y :: es => match st.fns, [t, xh, x, y].mapM parseRat?, es.mapM parseElem? with
+    | some S, some [t, xh, x, y], some es =>
+      (st, showRatList (Stbem.Gen.SLRest.evaluate_vector st.cfg.len st.cfg.glue S st.log st.pieces es (fun _ => (x, y)) t xh))
+    | _, _, _ => bad
+  | "sl" :: "genpotvec" :: t :: x :: y :: es => match st.fns, [t, x, y].mapM parseRat?, es.mapM parseElem? with
+    | some S, some [t, x, y], some es =>
+      (st, showRatList (Stbem.Gen.SLRest.potential_vector S st.gauss st.pieces es t (x, y)))
+    | _, _, _ => bad
+  | "sl" :: "genrhsvec" :: f :: es => match parseDataFn? f, es.mapM parseElem? with
+    | some (some f), some es =>
+      (st, showRatList (Stbem.Gen.SLRest.rhs_vector (fun _ => st.gauss) st.pieces es f))
+    | _, _ => bad
+  | "sl" :: "genres" :: ex :: m0 :: g :: gamma :: phi :: ts :: xs :: es =>
+    match st.fns, parseDataFn? m0, parseDataFn? g, gamma.toNat?, [phi, ts, xs].mapM parseRatList?, es.mapM parseElem? with
+    | some S, some m0, some g, some gamma, some [phi, ts, xs], some es =>
+      (st, showExceptList (Stbem.Gen.SLRest.residual st.cfg.len st.cfg.glue S st.log st.pieces es phi m0 g (ex == "1")
+        ts xs gamma))
+    | _, _, _, _, _, _ => bad
+  | ["sl", "genslice", n, m0, g] => match n.toNat?, parseOptRatVec? m0, parseOptRatVec? g with
+    | some n, some m0, some g =>
+      -- `mat` and `solve` are tokens here: the request is about `rhs`
+      (st, match Stbem.Gen.SLRest.assembly_slice (E := Nat) (fun _ _ _ => .ok []) (m0.map fun v => fun _ _ => .ok v)
+          (g.map fun v => fun _ => .ok v) (fun _ b => .ok b) (List.range n) with
+        | .ok r => showRatList r.2.1
+        | .error e => "err " ++ e)
     | _, _, _ => bad
   | "sl" :: "genmpcol" :: pw :: tr :: tes => match st.fns, parseElem? tr, tes.mapM parseElem? with
     | some S, some tr, some tes =>
